@@ -1,4 +1,4 @@
-import MuduoVerif.Proofs.PollerDispatch
+import MuduoVerif.Proofs.PollerPerm
 /-!
 # C09 — the loop calls exactly the ready, subscribed channels; same under epoll and poll
 
@@ -6,7 +6,7 @@ Property theorems only (lemmas: `Proofs/PollerReach.lean` — decomposition of e
 operations, frame moves and guarded callback emissions; `PollerOps.lean` — the effect of an operation
 whatever the back-end; `PollerPoll.lean`, `PollerEpoll.lean` — the two back-end invariants;
 `PollerTrace.lean` — trace invariants; `PollerSim.lean` — the two back-ends in lock step;
-`PollerDispatch.lean` — one iteration).
+`PollerDispatch.lean` — one iteration; `PollerPerm.lean` — histories with operations between polls only).
 
 Quantification: `ins : List In` is an arbitrary history of `enableReading/disableReading/enableWriting/
 disableWriting/disableAll/remove/recreate` on any channel (any `Nat` id), operations scripted to run
@@ -213,6 +213,45 @@ theorem same_watch (ins : List In) (henv : Along2 simEnvOk (init .poll) (init .e
   · rintro ⟨c, h1, h2, h3, h4⟩
     exact ⟨c, h1, (h.added c).symm ▸ h2, (h.ev c).symm ▸ h3, h4⟩
 
+/-- **same_callbacks, any report order**: when operations happen only between polls (no `In.hook`), the
+order in which the kernel lists the ready descriptors does not matter: if in every iteration both pollers
+return the same channels (`permEnvOk`: a permutation), both loops execute the same operations with the
+same results, run the same multiset of callbacks `(channel, kind, revents, interest)`, and agree on every
+channel's interest, `revents_` and registration afterwards -/
+theorem same_callbacks_unordered (ins : List In) (henv : Along2 permEnvOk (init .poll) (init .epoll) ins)
+    (hb : (reach .poll ins).blind = false) :
+    opsOut (reach .poll ins).out = opsOut (reach .epoll ins).out ∧
+    (cbOut (reach .poll ins).out).Perm (cbOut (reach .epoll ins).out) ∧
+    ∀ c, ((reach .poll ins).chans c).events = ((reach .epoll ins).chans c).events ∧
+      ((reach .poll ins).chans c).revents = ((reach .epoll ins).chans c).revents ∧
+      ((reach .poll ins).chans c).added = ((reach .epoll ins).chans c).added :=
+  let h := wsim_run ins _ _ wsim_init henv hb
+  ⟨h.ops, h.cbs, fun c => ⟨h.ev c, h.rev c, h.added c⟩⟩
+
+/-- … and ask the kernel to watch the same map -/
+theorem same_watch_unordered (ins : List In) (henv : Along2 permEnvOk (init .poll) (init .epoll) ins)
+    (hb : (reach .poll ins).blind = false) (fd : Int) (mask : Nat) :
+    watched (reach .poll ins) fd mask ↔ watched (reach .epoll ins) fd mask := by
+  have h := wsim_run ins _ _ wsim_init henv hb
+  rw [refine_poll_partial ins hb, refine_epoll_partial ins (h.blind ▸ hb)]
+  unfold specWatched
+  constructor
+  · rintro ⟨c, h1, h2, h3, h4⟩
+    exact ⟨c, h1, (h.added c) ▸ h2, (h.ev c) ▸ h3, h4⟩
+  · rintro ⟨c, h1, h2, h3, h4⟩
+    exact ⟨c, h1, (h.added c).symm ▸ h2, (h.ev c).symm ▸ h3, h4⟩
+
+/-- why `same_callbacks` fixes the order when callbacks operate on *other* channels: channel 2's read
+callback disables channel 3.  The kernel lists 3 before 2; `PollPoller` scans 2 before 3.  Both pollers
+return the same channels, yet epoll calls 3 and poll does not — inherent in `EventLoop::loop`'s
+sequential dispatch, not a defect of either back-end -/
+theorem order_matters :
+    let ins : List In :=
+      [.op 2 .enableR, .op 3 .enableR, .hook ⟨2, .read, 3, .disableAll⟩, .iter [(3, 1), (2, 1)] 2]
+    (pollerPoll (reach .poll (ins.take 3)) [(3, 1), (2, 1)] 2).2.Perm
+        (pollerPoll (reach .epoll (ins.take 3)) [(3, 1), (2, 1)] 2).2 ∧
+      ¬ (cbOut (reach .poll ins).out).Perm (cbOut (reach .epoll ins).out) := by decide
+
 /-! ## idle -/
 
 /-- `poll` is never given a zero time-out -/
@@ -263,5 +302,13 @@ it; after re-registration channel 2 read (hang-up with `POLLIN`: no close callba
 example : absOut (reach .poll sampleHistory).out =
     [.op 2 .enableR 3 0, .op 3 .enableR 3 0, .op 3 .enableW 7 0, .cb 2 .read 1 3, .op 3 .disableAll 0 0,
      .op 3 .remove 0 0, .cb 2 .read 1 3, .op 3 .enableW 4 0, .cb 2 .read 17 3, .cb 3 .write 4 4] := by decide
+
+/-- operations between polls only; the kernel reports in an order different from `pollfds_` -/
+example : Along2 permEnvOk (init .poll) (init .epoll) sampleUnordered ∧
+    (reach .poll sampleUnordered).blind = false ∧
+    cbOut (reach .poll sampleUnordered).out =
+      [.cb 2 .read 1 3, .cb 3 .write 4 4, .cb 4 .read 1 3, .cb 2 .read 1 3, .cb 4 .close 16 3] ∧
+    cbOut (reach .epoll sampleUnordered).out =
+      [.cb 4 .read 1 3, .cb 2 .read 1 3, .cb 3 .write 4 4, .cb 4 .close 16 3, .cb 2 .read 1 3] := by decide
 
 end MuduoVerif.C09
